@@ -49,8 +49,6 @@ class ValueIteration(Plans):
             max_residual=self.max_residual,
             max_iterations=self.max_iterations
         )
-        state_values[mdp._unable_to_reach_absorbing,] = self.undefined_value
-        action_values[mdp._unable_to_reach_absorbing,] = self.undefined_value
         policy_matrix = np.isclose(
             action_values,
             np.max(action_values, axis=-1, keepdims=True),
@@ -58,6 +56,8 @@ class ValueIteration(Plans):
         policy_matrix = policy_matrix/policy_matrix.sum(-1, keepdims=True)
         single_action_states = mdp.action_matrix.sum(-1) == 1
         policy_matrix[single_action_states] = mdp.action_matrix[single_action_states]
+        state_values[mdp._unable_to_reach_absorbing,] = self.undefined_value
+        action_values[mdp._unable_to_reach_absorbing,] = self.undefined_value
         policy=TabularPolicy.from_state_action_lists(
             state_list=mdp.state_list,
             action_list=mdp.action_list,
